@@ -533,7 +533,23 @@ impl Matcher for RegexMatcher {
                     .map(|hm| LineMatchKind::Candidate(hm.offset()))
             }
             None => {
-                self.shortest_match(haystack)?.map(LineMatchKind::Confirmed)
+                // With CRLF line terminators, the regex sees the position
+                // between the `\r` and the `\n` of a line's terminator, where
+                // an empty match (e.g., `\B`, or `-w` with a pattern that can
+                // match the empty string) is possible even though the line,
+                // with its terminator stripped, does not match. So in that
+                // case the caller has to confirm the line itself.
+                let crlf = self
+                    .config
+                    .line_terminator
+                    .map_or(false, |lineterm| lineterm.is_crlf());
+                self.shortest_match(haystack)?.map(|i| {
+                    if crlf {
+                        LineMatchKind::Candidate(i)
+                    } else {
+                        LineMatchKind::Confirmed(i)
+                    }
+                })
             }
         })
     }
